@@ -1,12 +1,14 @@
 import Cirbo.Proofs.Connect
 import Cirbo.Proofs.ConnSem
+import Cirbo.Proofs.ConnFull
 /-!
 # C10 — Circuit composition computes the documented functional composition
 
 -- OBLIGATION: c10_frame_add_gate
 -- OBLIGATION: c10_left_connection_keeps_base_function
 -- OBLIGATION: c10_left_connection_computes_the_composition
--- PARTIAL: proved for every left connection (connect_circuit(right_connect=False), connect_left, extend_circuit, add_circuit): (1) only gates are added and every base gate keeps its value under every assignment; (2) the attached gates compute the attached circuit's function of the values at the connectors (a renaming of the attached circuit's labels — connectors to the base gates they were identified with, other gates to their prefixed copies — turns every valuation of the result into a valuation of the attached circuit). Not yet proved: the exact inputs/outputs lists of the result, the right-connect direction and block extraction. All of it is modelled one-to-one (Model/Mutate2.lean connStep/connFinish) and compared with the code field by field (both directions, wrappers, name/prefix options, repeated composition); the implementation's result is checked against the composed evaluation of the two operands on all assignments, against the documented interface, checkWFU and block extraction.
+-- OBLIGATION: c10_left_connection_interface_and_block
+-- PARTIAL: proved for every left connection (connect_circuit(right_connect=False), connect_left, extend_circuit, add_circuit): (1) only gates are added and every base gate keeps its value under every assignment; (2) the attached gates compute the attached circuit's function of the values at the connectors (a renaming of the attached circuit's labels — connectors to the base gates they were identified with, other gates to their prefixed copies — turns every valuation of the result into a valuation of the attached circuit). (3) the exact inputs/outputs lists of the result (kept base interface minus connectors, then the attached circuit's unconnected inputs/outputs, renamed, in order), the block recording the attached circuit (its inputs/outputs are the attached circuit's, renamed) and the survival of older blocks (c10_left_connection_interface_and_block). Not yet proved: the right-connect direction and re-extraction of a block as a circuit. All of it is modelled one-to-one (Model/Mutate2.lean connStep/connFinish) and compared with the code field by field (both directions, wrappers, name/prefix options, repeated composition); the implementation's result is checked against the composed evaluation of the two operands on all assignments, against the documented interface, checkWFU and block extraction.
 -/
 namespace Cirbo
 open GateType Circuit
@@ -37,8 +39,33 @@ theorem c10_left_connection_computes_the_composition {c other c' : Circuit} {thi
       (∀ g ∈ other.gates, g.ty ≠ INPUT → φ g.label = (if name != "" && addP then name ++ "@" else "") ++ g.label) :=
   connect_left_semantics hwo h
 
+/-- **left connection, in full**: one renaming `φ` of the attached circuit's labels — connectors to the
+base gates they were identified with (`otherC.map φ = thisC`), every other gate to its prefixed copy —
+describes the whole result: the attached gates compute the attached circuit's function, the base
+gates are kept, the output list is the base outputs minus the connected ones followed by the attached
+circuit's unconnected outputs renamed, the input list is the base inputs (those still inputs) followed
+by the attached circuit's unconnected inputs renamed, the named block lists the attached circuit's
+inputs and outputs renamed, and every older block is still found under its name. -/
+theorem c10_left_connection_interface_and_block {c other c' : Circuit} {thisC otherC : List Label} {name : Label}
+    {addP : Bool} (hwo : WFG other) (h : c.connectCircuit other thisC otherC false name addP = .ok c') :
+    ∃ φ : Label → Label,
+      (∀ b v, IsValB c' b v → IsValB other (v ∘ φ) (v ∘ φ)) ∧
+      otherC.map φ = thisC ∧
+      (∀ g ∈ other.gates, g.label ∉ otherC → φ g.label = connPre name addP ++ g.label) ∧
+      (∃ extra, c'.gates = c.gates ++ extra) ∧
+      (∀ g ∈ other.gates, g.label ∉ otherC → (⟨φ g.label, g.ty, g.ops.map φ⟩ : Gate) ∈ c'.gates) ∧
+      (c.labels.Nodup → c'.labels.Nodup) ∧
+      c'.outputs = c.outputs.filter (fun o => !thisC.contains o) ++ (other.outputs.filter (fun o => !otherC.contains o)).map φ ∧
+      c'.inputs = c.inputs.filter (fun i => ((c'.find? i).map (·.ty)) == some INPUT) ++
+        (other.inputs.filter (fun i => !otherC.contains i)).map φ ∧
+      (name ≠ "" → ∃ fb, c'.getBlock name = .ok ⟨name, other.inputs.map φ, fb, other.outputs.map φ⟩) ∧
+      (∀ n b, n ≠ name → c.getBlock n = .ok b → c'.getBlock n = .ok b) :=
+  connect_left_full hwo h
+
 #print axioms c10_frame_add_gate
 #print axioms c10_left_connection_keeps_base_function
 #print axioms c10_left_connection_computes_the_composition
+
+#print axioms c10_left_connection_interface_and_block
 
 end Cirbo
